@@ -318,6 +318,7 @@ def item_pool(repo, out):
     cb = _strip_doc(_func(c, '__call__', rel).body)
     seq = []
     var = None
+    in_finally = False
     for s in cb:
         txt = ast.unparse(s)
         if isinstance(s, ast.Assign) and txt.endswith('= self.get()') and isinstance(s.targets[0], ast.Name):
@@ -327,8 +328,16 @@ def item_pool(repo, out):
             seq.append(1)
         elif var and txt == 'self.put(%s)' % var:
             seq.append(2)
+        elif (isinstance(s, ast.Try) and var and not s.handlers and not s.orelse
+              and [ast.unparse(x) for x in _strip_doc(s.body)] == ['yield %s' % var]
+              and [ast.unparse(x) for x in _strip_doc(s.finalbody)] == ['self.put(%s)' % var]):
+            # try: yield item / finally: self.put(item) -- the item also comes back when the borrower's block raises
+            seq += [1, 2]
+            in_finally = True
         else:
             raise TranslateError('_Pool.__call__: unsupported statement %s' % txt)
+    out.append('Definition c20_pool_call_finally : bool := %s.   (* self.put(item) sits in a finally clause *)'
+               % ('true' if in_finally else 'false'))
     out.append('Definition pool_call_code : list Z := [%s].   (* 0 item = self.get() 1 yield item 2 self.put(item) *)'
                % '; '.join('(%d)%%Z' % k for k in seq))
     # S3ChunkStore: one pool per store, built in __init__ from the session factory; request() sends through the session it
@@ -349,7 +358,7 @@ def item_pool(repo, out):
                         ok = False
                     borrowed = (i.optional_vars.id, n)
     if borrowed is None:
-        ok = False
+        raise TranslateError('S3ChunkStore.request: does not borrow a session from the pool')
     else:
         name, w = borrowed
         inside = {id(x) for x in ast.walk(w)}
@@ -363,10 +372,280 @@ def item_pool(repo, out):
                 ok = False
         if users < 1:
             ok = False
+        # the back-off between two attempts: retries.sleep() -- inside or outside the block that holds the session?
+        sleeps = [n for n in ast.walk(req) if isinstance(n, ast.Call) and isinstance(n.func, ast.Attribute)
+                  and n.func.attr == 'sleep']
+        if not sleeps:
+            raise TranslateError('S3ChunkStore.request: no back-off sleep found')
+        where = {id(n) in inside for n in sleeps}
+        if len(where) != 1:
+            raise TranslateError('S3ChunkStore.request: back-off sleeps both inside and outside the session block')
+        out.append('Definition c20_request_sleep_in_borrow : bool := %s.' % ('true' if where.pop() else 'false'))
     if any(isinstance(n, ast.Attribute) and n.attr in ('_session', 'session') and isinstance(n.value, ast.Name)
            and n.value.id == 'self' for n in ast.walk(st)):
         ok = False
     out.append('Definition s3_request_session_from_pool : bool := %s.' % ('true' if ok else 'false'))
 
 
-ITEMS = [item_sites, item_discipline, item_pool]
+# ------------------------------------------------------------------------------------------- sensor cache flow
+
+VIRT_FILES = ['katdal/dataset.py', 'katdal/h5datav1.py', 'katdal/h5datav2.py', 'katdal/h5datav3.py', 'katdal/visdatav4.py']
+V_GET, V_STORE, V_RET, V_LOCAL, V_RET_OTHER, V_MUTATES = 1, 2, 3, 4, 5, 6
+CACHE_ATTRS = ('get', 'update', 'timestamps', 'dump_period')
+INPLACE = ('sort', 'fill', 'resize', 'put', 'itemset', 'partition', 'setfield', 'byteswap', 'append', 'extend', 'insert',
+           'pop', 'remove', 'clear', 'reverse', 'setdefault', 'popitem', 'add', 'discard')
+
+
+def _virtual_function_names(tree, rel):
+    """names of the functions registered as virtual-sensor creators in this module (values of the dict literals that are
+    assigned to / merged into a *VIRTUAL_SENSORS variable)"""
+    names = []
+    for n in tree.body:
+        d = None
+        if isinstance(n, ast.Assign) and len(n.targets) == 1 and isinstance(n.targets[0], ast.Name) \
+                and n.targets[0].id.endswith('VIRTUAL_SENSORS') and isinstance(n.value, ast.Dict):
+            d = n.value
+        elif isinstance(n, ast.Expr) and isinstance(n.value, ast.Call) and isinstance(n.value.func, ast.Attribute) \
+                and n.value.func.attr == 'update' and isinstance(n.value.func.value, ast.Name) \
+                and n.value.func.value.id.endswith('VIRTUAL_SENSORS') and n.value.args and isinstance(n.value.args[0], ast.Dict):
+            d = n.value.args[0]
+        if d is not None:
+            for v in d.values:
+                if not isinstance(v, ast.Name):
+                    raise TranslateError('%s: virtual sensor registered with something that is not a function name' % rel)
+                if v.id not in names:
+                    names.append(v.id)
+    return names
+
+
+def _is_cache(node):
+    return isinstance(node, ast.Name) and node.id == 'cache'
+
+
+def _cache_gets(node):
+    return sum(1 for n in ast.walk(node) if isinstance(n, ast.Call) and isinstance(n.func, ast.Attribute)
+               and n.func.attr == 'get' and _is_cache(n.func.value))
+
+
+def _names(node):
+    return {n.id for n in ast.walk(node) if isinstance(n, ast.Name)}
+
+
+def _virtual_skeleton(fn, rel):
+    what = '%s:%s' % (rel, fn.name)
+    if not fn.args.args or fn.args.args[0].arg != 'cache':
+        raise TranslateError('%s: first parameter is not `cache`' % what)
+    params = {a.arg for a in fn.args.args + fn.args.kwonlyargs}
+    for n in ast.walk(fn):
+        if isinstance(n, ast.Attribute) and _is_cache(n.value) and n.attr not in CACHE_ATTRS:
+            raise TranslateError('%s: cache.%s is not a use of the cache the model knows' % (what, n.attr))
+        if isinstance(n, (ast.Delete,)) and any(isinstance(t, ast.Subscript) and _is_cache(t.value) for t in n.targets):
+            raise TranslateError('%s: deletes from the cache' % what)
+        if isinstance(n, (ast.FunctionDef, ast.AsyncFunctionDef, ast.Try, ast.While)) and n is not fn:
+            raise TranslateError('%s: %s inside a virtual sensor function' % (what, type(n).__name__))
+    code, stored, inputs = [], set(), set()
+
+    def simple(s):
+        gets = _cache_gets(s)
+        code.extend([V_GET] * gets)
+        did = False
+        if isinstance(s, ast.Assign):
+            tgts = []
+            for t in s.targets:
+                tgts += t.elts if isinstance(t, (ast.Tuple, ast.List)) else [t]
+            ncache = [t for t in tgts if isinstance(t, ast.Subscript) and _is_cache(t.value)]
+            if ncache:
+                if gets and not isinstance(s.value, (ast.Call, ast.Name)):
+                    raise TranslateError('%s: line %d mixes a fetch and a store' % (what, s.lineno))
+                code.extend([V_STORE] * len(ncache))
+                stored.update(t.id for t in tgts if isinstance(t, ast.Name))
+                stored.update(_names(s.value) - params - {'cache'})
+                did = True
+            elif gets and isinstance(s.value, ast.Call) and all(isinstance(t, ast.Name) for t in tgts) \
+                    and isinstance(s.value.func, ast.Attribute) and _is_cache(s.value.func.value):
+                inputs.update(t.id for t in tgts)      # x = cache.get(...): x IS the cached object
+            for t in tgts:
+                base = t
+                while isinstance(base, (ast.Subscript, ast.Attribute)):
+                    base = base.value
+                if isinstance(t, (ast.Subscript, ast.Attribute)) and isinstance(base, ast.Name) and base.id in inputs:
+                    code.append(V_MUTATES)
+        elif isinstance(s, ast.AugAssign):
+            base = s.target
+            while isinstance(base, (ast.Subscript, ast.Attribute)):
+                base = base.value
+            if isinstance(base, ast.Name) and base.id in inputs:
+                code.append(V_MUTATES)
+            if isinstance(s.target, ast.Subscript) and _is_cache(s.target.value):
+                raise TranslateError('%s: augmented assignment to a cache entry' % what)
+        elif isinstance(s, ast.Expr) and isinstance(s.value, ast.Call) and isinstance(s.value.func, ast.Attribute):
+            f = s.value.func
+            if _is_cache(f.value) and f.attr == 'update':
+                if len(s.value.args) != 1 or s.value.keywords or not isinstance(s.value.args[0], ast.Name):
+                    raise TranslateError('%s: cache.update(...) with something that is not a local dict' % what)
+                code.append(V_STORE)
+                stored.add(s.value.args[0].id)
+                did = True
+            elif isinstance(f.value, ast.Name) and f.value.id in inputs and f.attr in INPLACE:
+                code.append(V_MUTATES)
+        elif isinstance(s, ast.Return):
+            v = s.value
+            vals = [v.body, v.orelse] if isinstance(v, ast.IfExp) else [v]      # (the test of `a if c else b` is not returned)
+            used = (set().union(*[_names(x) for x in vals]) if v is not None else set()) - params
+            code.append(V_RET if s.value is not None and used and used <= stored else V_RET_OTHER)
+            did = True
+        if not did and not gets:
+            if not code or code[-1] != V_LOCAL:
+                code.append(V_LOCAL)
+
+    def block(stmts):
+        for s in stmts:
+            if isinstance(s, ast.Expr) and isinstance(s.value, ast.Constant):
+                continue
+            if isinstance(s, (ast.If, ast.For, ast.With)):
+                head = s.test if isinstance(s, ast.If) else s.iter if isinstance(s, ast.For) else s.items[0].context_expr
+                code.extend([V_GET] * _cache_gets(head))
+                block(s.body)
+                block(getattr(s, 'orelse', []))
+            elif isinstance(s, (ast.Assign, ast.AugAssign, ast.AnnAssign, ast.Expr, ast.Return, ast.Pass, ast.Assert)):
+                simple(s)
+            else:
+                raise TranslateError('%s: unsupported statement %s' % (what, type(s).__name__))
+    block(fn.body)
+    return code
+
+
+def item_sensor_flow(repo, out):
+    rel = 'katdal/sensordata.py'
+    get = _func(_class(_parse(repo, rel), 'SensorCache', rel), 'get', rel)
+    withs = [s for s in get.body if _lock_with(s, '_lock')]
+    if len(withs) != 1:
+        raise TranslateError('SensorCache.get: expected one `with self._lock:` block')
+    body = _strip_doc(withs[0].body)
+    first = body[0] if body else None
+
+    def is_virtual_loop(n):
+        return isinstance(n, ast.For) and ast.unparse(n.iter) == 'self.virtual.items()'
+    if isinstance(first, ast.Try) and [ast.unparse(x) for x in first.body] == ['sensor_data = self._raw[name]'] \
+            and len(first.handlers) == 1 and ast.unparse(first.handlers[0].type) == 'KeyError' \
+            and any(is_virtual_loop(n) for n in first.handlers[0].body) and not first.finalbody and not first.orelse:
+        lookup_first = True
+    elif any(is_virtual_loop(n) for n in ast.walk(withs[0])):
+        lookup_first = False      # the templates are consulted without / before looking at what is cached
+    else:
+        raise TranslateError('SensorCache.get: no loop over self.virtual.items() found')
+    # the creating function is called with the cache itself (so that its lookups and stores go through THIS lock)
+    calls = [n for n in ast.walk(withs[0]) if isinstance(n, ast.Call) and isinstance(n.func, ast.Name)
+             and n.func.id == 'create_sensor']
+    if len(calls) != 1 or [ast.unparse(a) for a in calls[0].args] != ['self', 'name']:
+        raise TranslateError('SensorCache.get: create_sensor is not called as create_sensor(self, name, ...)')
+    out.append('Definition c20_sensor_get_lookup_first : bool := %s.' % ('true' if lookup_first else 'false'))
+    skels = []
+    for vrel in VIRT_FILES:
+        tree = _parse(repo, vrel)
+        for fname in _virtual_function_names(tree, vrel):
+            fns = [n for n in tree.body if isinstance(n, ast.FunctionDef) and n.name == fname]
+            if len(fns) != 1:
+                if vrel != 'katdal/dataset.py' and not fns:
+                    continue        # registered here but defined in (and translated from) dataset.py
+                raise TranslateError('%s: expected exactly one function %s' % (vrel, fname))
+            mod = vrel.split('/')[-1][:-3]
+            skels.append(('%s.%s' % (mod, fname), _virtual_skeleton(fns[0], vrel)))
+    if not skels:
+        raise TranslateError('no virtual sensor functions found')
+    out.append('Definition c20_virtual_fn_skeletons : list (string * list Z) := [%s].   (* 1 cache.get 2 store 3 return '
+               'of a stored value 4 local 5 return of something else 6 in-place change of a fetched input *)'
+               % '; '.join('("%s"%%string, [%s])' % (nm, '; '.join('(%d)%%Z' % c for c in code)) for nm, code in skels))
+
+
+def item_props(repo, out):
+    rel = 'katdal/sensordata.py'
+    f = _func(_class(_parse(repo, rel), 'SensorCache', rel), '_get_props', rel)
+    argn = [a.arg for a in f.args.args]
+    if argn[:2] != ['name', 'prop_map']:
+        raise TranslateError('SensorCache._get_props: unexpected parameters %s' % argn)
+    code = []
+    for s in _strip_doc(f.body):
+        txt = ast.unparse(s)
+        if txt == 'props = prop_map.setdefault(name, {})':
+            code.append(0)
+        elif isinstance(s, ast.For) and ast.unparse(s.iter) == 'prop_map.items()' and not s.orelse:
+            for n in ast.walk(s):
+                if n is s.iter:
+                    continue
+                if isinstance(n, ast.Name) and n.id == 'prop_map' and n is not s.iter.func.value:
+                    raise TranslateError('SensorCache._get_props: the loop body touches prop_map itself')
+            code.append(1)
+        elif txt == 'props.update(kwargs)':
+            code.append(2)
+        elif txt == 'return props':
+            code.append(3)
+        else:
+            raise TranslateError('SensorCache._get_props: unsupported statement %s' % txt.split('\n')[0])
+    out.append('Definition c20_props_code : list Z := [%s].   (* 0 own entry (setdefault) 1 loop over prop_map.items() '
+               '2 update(kwargs) 3 return *)' % '; '.join('(%d)%%Z' % k for k in code))
+    # ConcatenatedSensorCache: its merged property map is guarded by a lock of its own
+    crel = 'katdal/concatdata.py'
+    kind, once, outside = _lock_discipline(repo, crel, 'ConcatenatedSensorCache', '_lock', ['props'])
+    out.append('Definition c20_concat_lock_kind : Z := (%d)%%Z.' % kind)
+    out.append('Definition c20_concat_lock_once : bool := %s.' % ('true' if once else 'false'))
+    out.append('Definition c20_concat_props_unlocked_methods : list string := %s.' % coq_strings(outside))
+    cg = _func(_class(_parse(repo, crel), 'ConcatenatedSensorCache', crel), 'get', crel)
+    calls = [n for n in ast.walk(cg) if isinstance(n, ast.Call) and isinstance(n.func, ast.Attribute)
+             and n.func.attr == '_get_props']
+    if len(calls) != 1 or [ast.unparse(a) for a in calls[0].args] != ['name', 'self.props']:
+        raise TranslateError('ConcatenatedSensorCache.get: expected one call self._get_props(name, self.props, ...)')
+
+
+def item_verify_bucket(repo, out):
+    rel = 'katdal/chunkstore_s3.py'
+    st = _class(_parse(repo, rel), 'S3ChunkStore', rel)
+    f = _func(st, '_verify_bucket', rel)
+    body = _strip_doc(f.body)
+    if not body or ast.unparse(body[0]) != 'bucket = _bucket_url(url)':
+        raise TranslateError('S3ChunkStore._verify_bucket: does not start with bucket = _bucket_url(url)')
+    code = []
+    for s in body[1:]:
+        txt = ast.unparse(s)
+        if isinstance(s, ast.If) and ast.unparse(s.test) == 'bucket in self._verified_buckets' and not s.orelse \
+                and [ast.unparse(x) for x in s.body] == ['return']:
+            code.append(0)
+        elif isinstance(s, ast.Try) and len(s.body) == 1 and ast.unparse(s.body[0]).startswith("response = self.request('GET', bucket") \
+                and len(s.handlers) == 1 and ast.unparse(s.handlers[0].type) == 'S3ObjectNotFound' \
+                and len(s.handlers[0].body) == 1 and isinstance(s.handlers[0].body[0], ast.Raise) \
+                and ast.unparse(s.handlers[0].body[0].exc).startswith('StoreUnavailable(') and not s.orelse and not s.finalbody:
+            code.append(1)
+        elif isinstance(s, ast.Assert) and ast.unparse(s.test) == 'response.ok':
+            code.append(2)
+        elif isinstance(s, ast.If) and ast.unparse(s.test) == "b'<Contents>' not in response.content" and not s.orelse \
+                and isinstance(s.body[-1], ast.Raise) and ast.unparse(s.body[-1].exc).startswith('StoreUnavailable(') \
+                and all(isinstance(x, (ast.Assign, ast.Raise)) for x in s.body):
+            code.append(3)
+        elif txt == 'self._verified_buckets.add(bucket)':
+            code.append(4)
+        else:
+            raise TranslateError('S3ChunkStore._verify_bucket: unsupported statement %s' % txt.split('\n')[0])
+    out.append('Definition c20_verify_bucket_code : list Z := [%s].   (* 0 already verified: return  1 list the bucket '
+               '(missing -> StoreUnavailable)  2 assert ok  3 empty -> StoreUnavailable  4 remember the bucket *)'
+               % '; '.join('(%d)%%Z' % k for k in code))
+    # the set is created empty in __init__ and touched nowhere else
+    users = sorted({fn.name for fn in st.body if isinstance(fn, ast.FunctionDef)
+                    for n in ast.walk(fn) if isinstance(n, ast.Attribute) and n.attr == '_verified_buckets'})
+    init = _func(st, '__init__', rel)
+    starts = [ast.unparse(n.value) for n in ast.walk(init) if isinstance(n, ast.Assign)
+              and _is_self_attr(n.targets[0], ['_verified_buckets'])]
+    out.append('Definition c20_verified_buckets_users : list string := %s.' % coq_strings(users))
+    out.append('Definition c20_verified_buckets_init_empty : bool := %s.' % ('true' if starts == ['set()'] else 'false'))
+    # get_chunk: a missing object triggers the bucket check and is then re-raised
+    gc = _func(st, 'get_chunk', rel)
+    ok = False
+    for n in ast.walk(gc):
+        if isinstance(n, ast.Try) and len(n.handlers) == 1 and ast.unparse(n.handlers[0].type) == 'S3ObjectNotFound':
+            hb = [x for x in n.handlers[0].body]
+            nm = n.handlers[0].name
+            ok = (len(hb) == 2 and ast.unparse(hb[0]) == 'self._verify_bucket(url, %s)' % nm
+                  and isinstance(hb[1], ast.Raise) and hb[1].exc is None)
+    out.append('Definition c20_get_chunk_verifies_on_404 : bool := %s.' % ('true' if ok else 'false'))
+
+
+ITEMS = [item_sites, item_discipline, item_pool, item_sensor_flow, item_props, item_verify_bucket]
